@@ -500,14 +500,14 @@ Proof.
 Qed.
 Definition create_run (order : list N) (o t : N) (sc : bool) (body : list instr) (s' : st) : st * outcome :=
   let '(W', D') := s' in
-  let '(s2, oc) := cfix order o body t (W', reset_obj D' t) in
+  let '(s2, oc) := cfix order o body t (W', set_state W' (reset_obj D' t) t CREATED_SLOT 1) in
   match oc with
   | Ok => ((fst s2, if sc then set_state (fst s2) (snd s2) t CODE_SLOT 1 else snd s2), Ok)
   | Fail => (s2, Fail)
   end.
 Lemma create_run_eq order o t sc body W D :
   create_run order o t sc body (W, D) =
-  let '(s2, oc) := exec_list order o t body (W, reset_obj D t) in
+  let '(s2, oc) := exec_list order o t body (W, set_state W (reset_obj D t) t CREATED_SLOT 1) in
   match oc with
   | Ok => ((fst s2, if sc then set_state (fst s2) (snd s2) t CODE_SLOT 1 else snd s2), Ok)
   | Fail => (s2, Fail)
@@ -519,7 +519,10 @@ Lemma exec_create_eq order o self ad v c r sc body W D :
   let D1 := set_state W (load W D self) self NONCE_SLOT (read_state W (load W D self) self NONCE_SLOT + 1) in
   match nth_error ad (Z.to_nat (read_state W (load W D self) self NONCE_SLOT)) with
   | None => after_call self c r ((W, D1), Fail)
-  | Some t => after_call self c r (do_call_gen true order (W, D1) self t v (create_run order o t sc body))
+  | Some t =>
+      if negb (read_state W (load W D1 t) t CREATED_SLOT =? 0) || negb (read_state W (load W D1 t) t CODE_SLOT =? 0)
+      then after_call self c r ((W, load W D1 t), Fail)
+      else after_call self c r (do_call_gen true order (W, D1) self t v (create_run order o t sc body))
   end.
 Proof. reflexivity. Qed.
 
@@ -653,12 +656,17 @@ Proof.
     cbv zeta. set (D1 := set_state W D self NONCE_SLOT (read_state W D self NONCE_SLOT + 1)) in *.
     destruct (nth_error ad (Z.to_nat (read_state W D self NONCE_SLOT))) as [t|].
     2:{ apply after_call_pure. split; [done|exact Hen]. }
+    rewrite (load_id _ _ _ (proj1 Hen)).
+    destruct (negb (read_state W D1 t CREATED_SLOT =? 0) || negb (read_state W D1 t CODE_SLOT =? 0)).
+    { apply after_call_pure. split; [done|exact Hen]. }
     apply after_call_pure.
     assert (Hstep : pure_step W D1 (do_call_gen true order (W, D1) self t v (create_run order o t sc body))).
     { apply do_call_gen_pure; [apply Hen|]. intros D2 Hwf2. rewrite create_run_eq.
-      pose proof (reset_ext W D2 t Hwf2) as Her.
-      destruct (forall_list_ext order o W body IH Hp t (reset_obj D2 t) (proj1 Her)) as [HWb Heb].
-      destruct (exec_list order o t body (W, reset_obj D2 t)) as [[Wb Db] ocb].
+      pose proof (reset_ext W D2 t Hwf2) as Her0.
+      pose proof (set_state_ext W (reset_obj D2 t) t CREATED_SLOT 1 (proj1 Her0)) as Her1.
+      assert (Her : ext W D2 (set_state W (reset_obj D2 t) t CREATED_SLOT 1)) by (eapply ext_trans; eauto).
+      destruct (forall_list_ext order o W body IH Hp t _ (proj1 Her)) as [HWb Heb].
+      destruct (exec_list order o t body (W, set_state W (reset_obj D2 t) t CREATED_SLOT 1)) as [[Wb Db] ocb].
       cbn [fst snd] in HWb, Heb. subst Wb.
       assert (He2 : ext W D2 Db) by (eapply ext_trans; eauto).
       destruct ocb; unfold pure_step; cbn [fst snd].
